@@ -271,6 +271,47 @@ def run(p, report, tier):
                 why = f"labels are also read at line(s) {sorted({n.lineno for n in other})}"
         report.add("R12.2", f"{cname}.fit", "label statistics only via compute_vote_vectors(y, w, missing_label=-1)",
                    f"{f.file}:{f.node.lineno}", ok, detail=why)
+    report.rule("R12.4", "fit of the supervised learners is a function of its arguments only: every fitted attribute "
+                "read during fit was stored earlier in the same fit call (a wrapped estimator that survives from an "
+                "earlier fit makes the model depend on the order in which labels were revealed; shared with C13 R13.2)",
+                floor=4)
+    from . import c13_fit
+    ents12 = []
+    for cname in ("SklearnClassifier", "SklearnRegressor", "SklearnNormalRegressor", "ParzenWindowClassifier",
+                  "NICKernelRegressor", "AnnotatorLogisticRegression"):
+        ci = p.get_class(cname)
+        fm = p.find_method(ci, "fit")
+        if fm is None:
+            raise AnalysisError(f"{cname}.fit vanished")
+        ents12.append((ci, fm))
+    # n_features_in_ is input-shape bookkeeping (its precomputed-metric read is a known finding of C13); it does
+    # not enter the fitted model and is not judged here
+    c13_fit.check_fit_recomputes(p, report, ents12, "R12.4", skip_attrs=("n_features_in_",))
+    report.rule("R12.5", "fit never writes into the arrays it is given (X, y, sample_weight; callees inlined): a weight "
+                "array zeroed in place at the currently unlabeled samples would change a later fit after those "
+                "labels are revealed", floor=12)
+    from ..absint import Interp
+    from . import c05
+    for ci, fm in ents12:
+        it = Interp(p)
+        it.run_entity(ci, fm)
+        c05.check_entity(p, report, ci, fm, it, r_param=None, r_arr="R12.5", r_est=None, ent=f"{ci.name}.fit",
+                          only_params=("X", "y", "sample_weight"))
+    # the labeled mask is computed with the configured sentinel
+    for cname, mname in TARGETS:
+        ci = p.get_class(cname)
+        f = ci.methods.get(mname)
+        if f is None:
+            continue
+        for n in ast.walk(f.node):
+            if isinstance(n, ast.Call) and c01.callname(n) in ("is_labeled", "is_unlabeled"):
+                sent = [k.value for k in n.keywords if k.arg == "missing_label"] + list(n.args[1:2])
+                ok = bool(sent) and (("missing_label" in ast.unparse(sent[0])) or ast.unparse(sent[0]) == "-1")
+                report.add("R12.1", f"{cname}.{mname}", f"labeled mask {site_id(n, 70)} uses the configured sentinel",
+                           f"{f.file}:{n.lineno}", ok,
+                           detail="sentinel passed" if ok else
+                           "the mask is computed with the NaN default: with another missing_label every sample counts "
+                           "as labeled and unlabeled samples are fitted")
     report.rule("R12.3", "compute_vote_vectors gives zero weight to missing labels by an assignment (not by arithmetic "
                 "that can turn inf into NaN) that dominates the count (shared with C17 R17.2)", floor=3)
     from . import c17
